@@ -808,7 +808,10 @@ func c12ExecF(in []string) []string {
 
 	var files []*c12Src
 	for _, f := range p.files {
-		files = append(files, &c12Src{spec: f, closeErr: true, slowClose: c10Pick(in, 8) == 3})
+		// (slow closes only in plans without short deadlines: the model's deadline arithmetic takes the time before
+		// the call is made for negligible)
+		slow := c10Pick(in, 8) == 3 && p.timeoutMs >= 600000 && (p.opCtx == "n" || p.opCtx == "l") && (p.rtCtx == "n" || p.rtCtx == "l")
+		files = append(files, &c12Src{spec: f, closeErr: true, slowClose: slow})
 	}
 	var stream *c12Src
 	if p.payload == 's' {
